@@ -671,6 +671,11 @@ impl PoolImpl {
         self.s2n_waiting_parent_cert.len()
     }
 
+    /// Parents for whose certificate some block is waiting (safe-to-notar).
+    pub fn verif_waiting_parents(&self) -> Vec<BlockId> {
+        self.s2n_waiting_parent_cert.keys().cloned().collect()
+    }
+
     /// Finalization status of every tracked slot, as `(slot, tag, hash)`.
     pub fn verif_finality_status(&self) -> Vec<(Slot, &'static str, Option<BlockHash>)> {
         self.finality_tracker.verif_status()
